@@ -82,6 +82,7 @@ class Eval(object):
         self.events = None        # list collecting call events while a path is evaluated
         self.preserve = ()        # records assumed untouched by callees (stated assumption of the rule that sets it)
         self.overlaps = []        # (function, loop line, target address - source address at loop entry, walk direction)
+        self.starts = []          # (function, loop line, target address, source address) at loop entry
 
     def read(self, st, loc):
         if loc[0] == 'm' and len(loc) > 2:
@@ -421,6 +422,41 @@ def lockstep(ctx, minimum=8):
                             if v is not None and abs(v) > 1:
                                 nm = names.get(d[1], '?') if d[0] == 'v' else d[1]
                                 bad.append(('step:%s' % nm, 'the cursor `%s` changes by %+d on a path that copies one byte' % (nm, v)))
+            # (a) target and source walk in the same direction on every path that copies a byte
+            for (st, ncopy, sites) in paths:
+                if ncopy != 1:
+                    continue
+                dirs = {}
+                for (nid_, (c, l, src)) in sites:
+                    for (what, e) in (('target', l), ('source', src)):
+                        for r in walk(e):
+                            lo = loc_of(r) if r.k in ('ref', 'mem') else None
+                            if lo is not None and delta(st, lo[:2]) in (1, -1):
+                                dirs.setdefault(what, set()).add(delta(st, lo[:2]))
+                if len(dirs.get('target', ())) == 1 and len(dirs.get('source', ())) == 1 and dirs['target'] != dirs['source']:
+                    bad.append(('opposite-directions', 'the target address walks %s while the source address walks %s: the bytes arrive in '
+                                                       'reverse order' % ('up' if 1 in dirs['target'] else 'down', 'up' if 1 in dirs['source'] else 'down')))
+            # (b) progress: the variable the loop condition tests moves towards the exit
+            for cn in lp.cond_nodes:
+                cx = strip(g.nodes[cn].x)
+                if cx is None or cx.k != 'bin' or cx.op not in ('>', '<', '!=', '<=', '>='):
+                    continue
+                a_, b_ = strip(cx.kids[0]), strip(cx.kids[1])
+                la_, lb_ = loc_of(a_), loc_of(b_)
+                ka_ = ind.get(la_[:2]) if la_ is not None else None
+                kb_ = ind.get(lb_[:2]) if lb_ is not None else None
+                want = None
+                if isinstance(ka_, int) and ka_ != 0 and (kb_ in (None, 0) or lb_ is None):
+                    want = {'>': -1, '>=': -1, '<': 1, '<=': 1}.get(cx.op)
+                    if cx.op == '!=' and b_.k == 'int' and b_.val == 0:
+                        want = -1
+                    got, nm_ = ka_, (names.get(la_[1], '?') if la_[0] == 'v' else la_[1])
+                elif isinstance(kb_, int) and kb_ != 0 and (ka_ in (None, 0) or la_ is None):
+                    want = {'>': 1, '>=': 1, '<': -1, '<=': -1}.get(cx.op)
+                    got, nm_ = kb_, (names.get(lb_[1], '?') if lb_[0] == 'v' else lb_[1])
+                if want is not None and (got > 0) != (want > 0):
+                    bad.append(('no-progress:%s' % nm_, 'the loop runs while %s but `%s` moves by %+d per iteration, away from the exit: the copy '
+                                                        'runs over the end of both buffers' % (show(cx), nm_, got)))
             guarded = []
             for l, k in sorted(ind.items(), key=str):
                 nm = names.get(l[1], '?') if l[0] == 'v' else l[1]
@@ -598,6 +634,7 @@ def affine_paths(m, fname, lossless=False, preserve=(), stop_at_unsummarised=Fal
                                 lo_ = loc_of(r_) if r_.k in ('ref', 'mem') else None
                                 if lo_ is not None and ind.get(lo_[:2]) in (1, -1):
                                     dirs.add(ind[lo_[:2]])
+                        ev.starts.append((fn_name, lp.line, da, sa))
                         if is_lin(da) and is_lin(sa) and len(dirs) == 1:
                             ev.overlaps.append((fn_name, lp.line, ladd(da, sa, -1), dirs.pop()))
                     break
@@ -722,6 +759,25 @@ def position(ctx, table=None, minimum=4):
         if posloc is None:
             ctx.broke(props, 'RF17: %s does not access its position field %s.%s' % (fname, fld[0], fld[1]))
             continue
+        # the object-side cursor starts at  Start + position  (the other side is the caller's buffer)
+        startloc = None
+        for nd in g.nodes:
+            if nd.x is None:
+                continue
+            for c in walk(nd.x):
+                if c.k == 'mem' and c.field == (fld[0], 'Start') and loc_of(c) is not None:
+                    startloc = loc_of(c)
+        if startloc is not None and ev.starts:
+            want = ladd(atom('@' + startloc[1]), atom('@' + posloc[1]))
+            okstart = any(da == want or sa == want for (fn_, ln_, da, sa) in ev.starts)
+            site = '%s: the copy starts at Start + position on the object side' % fname
+            if okstart:
+                ctx.ob(props, RULE2, fname, site, 'one cursor starts at %s' % _show(want))
+            else:
+                ctx.ob(props, RULE2, fname, site, None)
+                ctx.find(props, RULE2, fname, 'start-address', m.loc(fname, m.funcs[fname].line),
+                         '%s: neither cursor of the copy starts at %s (they start at %s): the access does not continue where the '
+                         'previous one ended' % (fname, _show(want), ', '.join(sorted(set('%s / %s' % (_show(da), _show(sa)) for (f_, l_, da, sa) in ev.starts)))))
         outcomes = {}
         for (st, moved, nloops, line, events) in finals:
             v = st.get(posloc[:2])
@@ -999,3 +1055,125 @@ def run(ctx):
     if 'COSdoUploadBlock' in ctx.m.funcs:
         block_refill(ctx)
         overlap_direction(ctx)
+
+
+# ------------------------------------------------------------------ thorough tier: mutation adequacy of RF17 (static)
+MUT_FUNCS = ('COTDomainRead', 'COTDomainWrite', 'COTStringRead', 'COSdoDownloadSegmented', 'COSdoUploadSegmented', 'COSdoUploadBlock')
+MUT_FIELDS = set([('CO_OBJ_DOM', 'Offset'), ('CO_OBJ_STR', 'Offset'), ('CO_SDO_SEG', 'Num'), ('CO_SDO_BUF', 'Num'), ('CO_SDO_BUF', 'Cur'),
+                  ('CO_SDO_BLK', 'Size'), ('CO_SDO_BLK', 'Len')])
+
+
+def _rf17_mutants(fn):
+    from canalyze.front import X
+    sites = []
+
+    def parents(root):
+        for n in walk(root):
+            for i, k in enumerate(n.kids):
+                if k is not None:
+                    yield n, i, k
+    for (par, i, n) in parents(fn.body):
+        if n is None or n.mac is not None:
+            continue          # expansions of the frame macros are not the function's own arithmetic
+        if n.k == 'bin' and n.op in ('+', '-', '+=', '-=') and (int_type(n.cty) is not None or is_pointer(n.cty)):
+            new = {'+': '-', '-': '+', '+=': '-=', '-=': '+='}[n.op]
+
+            def ap(n=n, new=new):
+                n.op = new
+
+            def un(n=n, old=n.op):
+                n.op = old
+            sites.append(('line %d: `%s` with operator %s' % (n.line, show(n)[:60], new), ap, un))
+        if n.k == 'un' and n.op in ('post++', 'post--', '++', '--'):
+            new = n.op.replace('++', '~~').replace('--', '++').replace('~~', '--')
+
+            def ap(n=n, new=new):
+                n.op = new
+
+            def un(n=n, old=n.op):
+                n.op = old
+            sites.append(('line %d: `%s` turned into %s' % (n.line, show(n)[:40], new), ap, un))
+        if par.k == 'compound':
+            tgt = None
+            if n.k == 'bin' and n.op in ('=', '+=', '-='):
+                l = strip(n.kids[0])
+                if l.k == 'mem' and l.field in MUT_FIELDS:
+                    tgt = l
+            if n.k == 'un' and n.op in ('post++', 'post--', '++', '--'):
+                l = strip(n.kids[0])
+                if l.k == 'mem' and l.field in MUT_FIELDS or (l.k == 'ref' and is_pointer(l.cty)):
+                    tgt = l
+            if tgt is not None:
+                def ap(par=par, i=i, line=n.line):
+                    z = X('null')
+                    z.line = line
+                    par.kids[i] = z
+
+                def un(par=par, i=i, old=n):
+                    par.kids[i] = old
+                sites.append(('line %d: statement `%s` deleted' % (n.line, show(n)[:60]), ap, un))
+    return sites
+
+
+def _rf17_findings(mm):
+    from canalyze import report
+    probe = report.Ctx(mm)
+    lockstep(probe, minimum=0)
+    position(probe, minimum=0)
+    account(probe)
+    block_refill(probe)
+    overlap_direction(probe)
+    return sorted(set('%s %s' % (f.rule, f.key) for f in probe.findings)), probe.broken
+
+
+def mutation_adequacy(ctx):
+    """First-order mutants (operator flipped, ++ for --, a store to a position / counter deleted) of the functions RF17 makes
+    claims about are built on the AST and re-analysed; each must be reported by one of the RF17 rules or rejected as not
+    analysable.  Mutants that survive are listed: equivalent for the byte accounting, or decided elsewhere (tables)."""
+    from canalyze import model as modelmod
+    base = ctx.m
+    units = sorted(set(base.funcs[f].unit for f in MUT_FUNCS + ('COObjRdBufCont', 'COObjWrBufCont') if f in base.funcs))
+    mm = modelmod.Model(defs=getattr(base, 'config', ()), units=units)
+    base_findings, base_broken = _rf17_findings(mm)
+    if base_findings or base_broken:
+        raise AnalysisBroken('RF17 mutation analysis: the unmutated private model is not clean: %s %s' % (base_findings[:3], base_broken[:1]))
+    table = []
+    total = killed = 0
+    for fname in MUT_FUNCS:
+        if fname not in mm.funcs:
+            continue
+        fn = mm.funcs[fname]
+        for (desc, ap, un) in _rf17_mutants(fn):
+            ap()
+            mm._cfg.pop(fname, None)
+            try:
+                fs, br = _rf17_findings(mm)
+                verdict = ('reported: ' + '; '.join(fs[:2])) if fs else (('rejected (analysis-broken): ' + str(br[0][1])[:70]) if br else 'NOT reported')
+            except AnalysisBroken as e:
+                verdict = 'rejected (analysis-broken): %s' % str(e)[:70]
+            except Exception as e:
+                verdict = 'rejected (%s)' % type(e).__name__
+            finally:
+                un()
+                mm._cfg.pop(fname, None)
+            total += 1
+            if not verdict.startswith('NOT'):
+                killed += 1
+            table.append({'function': fname, 'mutant': desc, 'verdict': verdict})
+    for p_ in ('C02', 'C03', 'C06'):
+        ctx.table(p_, 'RF17 first-order mutants of the streaming accessors and segmented / block handlers', table)
+    ctx.inst('RF17.mutants', total)
+    ctx.inst('RF17.mutants-reported', killed)
+    ctx.ob(['C02', 'C03', 'C06'], 'RF17-mutants', '(six functions)', '%d first-order mutants' % total, '%d reported or rejected, %d listed as survivors' % (killed, total - killed))
+    ctx.require_min(['C02', 'C03', 'C06'], 'RF17-mutants', total, 30, 'first-order mutants generated')
+    ctx.require_min(['C02', 'C03', 'C06'], 'RF17-mutants', killed, max(1, total // 2), 'mutants reported (frozen floor: half)')
+    return table
+
+
+_run_rf17 = run
+
+
+def run(ctx):
+    _run_rf17(ctx)
+    if getattr(ctx, 'tier', 'quick') == 'thorough' and not getattr(ctx.m, 'config', ()):
+        mutation_adequacy(ctx)
